@@ -41,7 +41,7 @@ def run(tier, seed):
                           'replay': f'soupsieve.select(\':lang("{r}")\', BeautifulSoup(\'<p lang="{t}">x</p>\', "html.parser"))'})
     ck.sample({'range': pairs[0][0], 'tag': pairs[0][1], 'model': outs[0]})
     # (2) :lang() on trees: language determination + filtering, through the API
-    n = 150 if tier == 'quick' else 3000
+    n = 220 if tier == 'quick' else 3000
     scs = campaign.build(rnd, 'langdir', n, 8, depth=1, all_match=True)
     scs += campaign.build(rnd, 'ns', n // 3, 6, feats=('core', 'lang', 'ns'), depth=1, all_match=True)
     recs = matchcheck.run_corr(ck, scs)
